@@ -957,6 +957,14 @@ class BlockwiseRequest(BaseUnicastRequest, interfaces.Request):
             app_request.remote = blockresponse.remote
 
             if blockresponse.opt.block1 is None:
+                if blockresponse.code == CONTINUE:
+                    # 2.31 only exists as the acknowledgement of a Block1
+                    # block. Taking it for the final response would report an
+                    # upload as successful of which (possibly) only the first
+                    # blocks were ever sent.
+                    raise error.UnexpectedBlock1Option(
+                        "2.31 Continue without Block1 option"
+                    )
                 if blockresponse.code.is_successful() and current_block1.opt.block1:
                     log.warning(
                         "Block1 option completely ignored by server, assuming it knows what it is doing."
